@@ -32,6 +32,9 @@ def problems(tier):
         ("f1", fam.base(4, [fam.fx("t0", 2)])),
         ("v1", fam.base(3, [fam.vr("t0", 1, 2)])),
         ("z1", fam.base(3, [fam.zr("t0")])),
+        # a variable-duration task that may collapse to a single instant (start == end for some timings only)
+        ("v0", fam.base(3, [fam.vr("t0", 0, 3)])),
+        ("fv0", fam.base(2, [fam.fx("t0", 1), fam.vr("t1", 0, 1)])),
         ("o1", fam.base(3, [fam.fx("t0", 1, optional=True)])),
         ("ff", fam.base(4, [fam.fx("t0", 2), fam.fx("t1", 1)])),
         ("ff.worker", fam.base(4, [fam.fx("t0", 2), fam.fx("t1", 1)], workers=W[:1], requirements=[
